@@ -17,7 +17,8 @@ RULE = ("item dicts with <=4 keys and value lists of length 0..3 (ints/strs/tupl
         "dims=None / every kind of grouping (ordered set partitions, str and 1-tuple singletons, permuted strs, "
         "subsets) / malformed dims, optional constants, table-driven derivers and exclude predicates; pairs and "
         "triples for product and + / MultiSweep (nested), filtered_sweep for key subsets, count_sweep on small "
-        "pipelines, sequences of 2-3 operations (product / + / filtered_sweep / add_derivers) on 2-3 SHARED sweep "
+        "pipelines (Sweep / MultiSweep object and its .list(), value lists with repeated values and zipped groups "
+        "whose projection onto the root arguments repeats), sequences of 2-3 operations (product / + / filtered_sweep / add_derivers) on 2-3 SHARED sweep "
         "objects with every object re-listed after every step; thorough adds the exhaustive enumeration for <=3 keys "
         "and lengths <=2; non-trivial = at least "
         "two keys or more than one sweep involved; distinct by the whole case")
@@ -110,6 +111,8 @@ def emit_case(c) -> str:
         return f"(CFilterM {cmexpr(c['e'])} {cstrs(c['keys'])})"
     if k == "count":
         return f"(CCount {crs(c['r'])} {clist([cpair(cstr(d), cstrs(a)) for d, a in c['deps']])})"
+    if k == "countm":
+        return f"(CCountM {cmexpr(c['e'])} {clist([cpair(cstr(d), cstrs(a)) for d, a in c['deps']])})"
     if k == "seq":
         return f"(CSeq {clist([crs(r) for r in c['base']])} {clist([csop(o) for o in c['ops']])})"
     raise ValueError(k)
@@ -298,16 +301,18 @@ def run_impl(c):
         return _res(lambda: _obs(m.filtered_sweep(list(c["keys"]))))
     if k == "seq":
         return run_seq(c)
-    if k == "count":
-        s = mk_sweep(c["r"])
+    if k in ("count", "countm"):
+        s = mk_sweep(c["r"]) if k == "count" else mk_m(c["e"])
         p = mk_pipeline(c["funcs"])
         deps = [[d, list(p.root_args(d))] for d in p.func_dependencies(c["out"])]
 
-        def cnt():
-            r = count_sweep(c["out"], s, p)
+        def fmt(r):
             return [[d, [[list(key), n] for key, n in v.items()]] for d, v in r.items()]
 
-        return [deps, _res(cnt)]
+        # both forms of the same sweep: the object itself, and its list of dicts
+        return [deps,
+                _res(lambda: fmt(count_sweep(c["out"], s, p))),
+                _res(lambda: fmt(count_sweep(c["out"], s.list(), p)))]
     raise ValueError(k)
 
 
@@ -536,21 +541,55 @@ def _ancestors(funcs, out):
     return seen, roots
 
 
-def gen_count(rng):
-    r = gen_rsweep(rng, KEYS, mode=rng.choice(["none", "partition", "singletons"]))
+def _repeat_rows(rng, r):
+    """Repeat values inside the value lists: whole rows of a zipped group, or single keys of it (so that the
+    projection onto some root arguments repeats while the combinations stay different)."""
+    col = {k: v for k, v in r["items"]}
+    groups = [[k] for k in col] if r["dims"] is None else [[g] if isinstance(g, str) else list(g) for g in r["dims"]]
+    for g in groups:
+        g = [k for k in g if k in col]
+        if not g or len(col[g[0]]) < 2 or rng.random() < 0.3:
+            continue
+        n = min(len(col[k]) for k in g)
+        src, dst = rng.sample(range(n), 2)
+        ks = g if rng.random() < 0.5 else rng.sample(g, rng.randint(1, len(g)))
+        for k in ks:
+            col[k][dst] = copy.deepcopy(col[k][src])
+
+
+def gen_count(rng, multi=False):
+    plain = rng.random() < 0.6
+    rs = []
+    for _ in range(rng.choice([2, 3]) if multi else 1):
+        for _ in range(30):
+            r = gen_rsweep(rng, KEYS[:3] if multi else KEYS, mode=rng.choice(["none", "none", "partition", "singletons"]),
+                           plain=plain, maxlen=3)
+            if n_base(r) <= 27:
+                break
+        if rng.random() < 0.7:
+            _repeat_rows(rng, r)
+        rs.append(r)
+    r = rs[0]
     ck = combo_key_list(r) or ["a"]
-    if rng.random() < 0.1:
+    if multi:  # root arguments every member carries (mostly)
+        common = [k for k in ck if all(k in combo_key_list(x) for x in rs)]
+        ck = common or ck
+    if rng.random() < 0.05:
         ck = ck + ["zz"]
-    nf = rng.randint(1, 4)
+    nf = rng.choice([2, 2, 3, 4])
     funcs = []
     for i in range(nf):
-        cands = ck + [o for o, _ in funcs]
-        params = rng.sample(cands, rng.randint(1, min(3, len(cands))))
+        params = rng.sample(ck, rng.randint(1, min(3, len(ck))))
+        if funcs and rng.random() < 0.85:  # chain on an earlier function, so that there are dependencies
+            params = params[: max(1, len(params) - 1)] + [rng.choice(funcs)[0]]
         funcs.append([f"f{i}", params])
-    out = funcs[-1][0] if rng.random() < 0.8 else rng.choice(funcs)[0]
+    out = funcs[-1][0] if rng.random() < 0.9 else rng.choice(funcs)[0]
     deps = []
     for d in sorted(_ancestors(funcs, out)[0]):
         deps.append([d, sorted(_ancestors(funcs, d)[1])])
+    if multi:
+        e = ["multi", [["leaf", x] for x in rs]] if rng.random() < 0.5 else ["add", ["leaf", rs[0]], ["leaf", rs[1]]]
+        return {"kind": "countm", "e": e, "funcs": funcs, "out": out, "deps": deps}
     return {"kind": "count", "r": r, "funcs": funcs, "out": out, "deps": deps}
 
 
@@ -695,6 +734,13 @@ _S = lambda k, v, **kw: {"items": [[k, v]], "dims": None, "excl": None, "consts"
                          "ders": kw.get("ders")}
 
 CORNERS = [
+    # count_sweep with repeated values: a product, and a zipped group whose projection onto (a, b) repeats
+    {"kind": "count", "r": {"items": [["a", [1, 1, 2]], ["b", [3, 4]], ["x", [5, 6]]], "dims": None, "excl": None,
+                            "consts": None, "ders": None},
+     "funcs": [["c", ["a", "b"]], ["d", ["c", "x"]]], "out": "d", "deps": [["c", ["a", "b"]]]},
+    {"kind": "count", "r": {"items": [["a", [1, 1, 2]], ["b", [3, 3, 4]], ["x", [5, 6, 7]]], "dims": [["a", "b", "x"]],
+                            "excl": None, "consts": None, "ders": None},
+     "funcs": [["c", ["a", "b"]], ["d", ["c", "x"]]], "out": "d", "deps": [["c", ["a", "b"]]]},
     # shared operands: a second / a triple product after a first one, everything listed again (constants, derivers)
     {"kind": "seq", "base": [_S("a", [1, 2], consts=[["x", 10]]), _S("b", [3, 4], consts=[["y", 20]]),
                              _S("c", [5], consts=[["z", 30]])],
@@ -778,8 +824,9 @@ def generate(rng, tier, mult):
             e = gen_mexpr(rng)
             lv = _leaves(e)
             cases.append({"kind": "filterm", "e": e, "keys": gen_keys(rng, lv[0]) if lv else ["a"]})
-        if rng.random() < 0.5:
-            cases.append(gen_count(rng))
+        cases.append(gen_count(rng))
+        if rng.random() < 0.3:
+            cases.append(gen_count(rng, multi=True))
         for _ in range(2):
             sq = gen_seq(rng)
             if sq["ops"]:
@@ -815,6 +862,8 @@ def _sweeps_of(c):
         return [c["r"]]
     if k == "product":
         return [c["r"], *c["others"]]
+    if k == "countm":
+        return _leaves(c["e"])
     if k == "seq":
         return list(c["base"])
     return _leaves(c["e"])
@@ -836,6 +885,11 @@ def distribution(c):
         d["dims0"] = "none" if r["dims"] is None else ("zip" if any(isinstance(g, list) and len(g) > 1
                                                                      for g in r["dims"]) else "flat")
         d["extras0"] = "".join(x[0] for x in ("excl", "consts", "ders") if r[x] is not None) or "-"
+    if c["kind"] in ("count", "countm"):
+        rep = any(len({json.dumps(x) for x in v}) < len(v) for r in sw for _, v in r["items"])
+        plain = all(r["excl"] is None and r["consts"] is None and r["ders"] is None for r in sw)
+        d["count_form"] = ("plain" if plain else "extras") + ("+repeated-values" if rep else "") \
+            + ("+deps" if c["deps"] else "+nodeps")
     if c["kind"] == "seq":
         d["seq_ops"] = ",".join(o[0] for o in c["ops"])
         d["seq_shared_extras"] = "%dc%dd" % (sum(1 for r in sw if r["consts"]), sum(1 for r in sw if r["ders"]))
